@@ -32,6 +32,8 @@ FV = 'fatfs::fs::format_volume'
 FBS = 'fatfs::boot_sector::format_boot_sector'
 VALIDATE = 'fatfs::boot_sector::BootSector::validate'
 SERIALIZE = 'fatfs::boot_sector::BootSector::serialize'
+# inside the sizing arithmetic only the division / remainder sites are analysed (a zero divisor panics in every build)
+DIV_KINDS = ('assert:div0', 'assert:rem0')
 
 # narrowing `as` casts in the formatting code that the interval analysis cannot prove: (function, snippet fragment) -> reason
 CAST_BELIEFS = [
@@ -102,8 +104,8 @@ def run(ctx, rep):
         col = panics.run_inventory(facts, roots, base_fields=base)
         table = panics.load_discharge_table()
         classes = panics.report_sites(rep, 'V0', col, table, prop_note='reachable while formatting',
-                                      scope_pred=lambda fn, site: fn.name not in lscope)
-        skipped = len([1 for (fname, b), site in col.sites.items() if fname in lscope])
+                                      scope_pred=lambda fn, site: fn.name not in lscope or site['kind'] in DIV_KINDS)
+        skipped = len([1 for (fname, b), site in col.sites.items() if fname in lscope and site['kind'] not in DIV_KINDS])
         rep.notes.append('format-path panic sites outside the layout code by discharge class: %s; %d sites inside the '
                          'sizing arithmetic (%d functions reachable from format_boot_sector) are NOT analysed' % (
                              classes, skipped, len(lscope)))
